@@ -773,9 +773,11 @@ def plan(tier):
         deep_dst = ('-> absent (', '-> nested-absent (', '-> dir (', '-> file (')
         for c in singles:
             deep = c['label'].startswith(deep_src) and any(d in c['label'] for d in deep_dst)
+            if c['label'].startswith('nested') and not any(d in c['label'] for d in deep_dst[:2]):
+                deep = False
             items.append((c, 1 if deep else 0))
         for c in multis:
-            deep = ('file9' in c['label'] or 'dir2' in c['label']) and 'file5' in c['label']
+            deep = 'file9' in c['label'] and 'file5' in c['label']
             items.append((c, 1 if deep else 0))
         deep_grid = ('buf=2 part=5 file size=8', 'buf=4 part=10 file size=11', 'buf=3 part=4 file size=9', 'buf=2 part=3 dir with')
         for c in grid_configs():
